@@ -25,7 +25,7 @@ MANIFEST = {
     "C11": dict(level="model_checking",
                 technique="TLA+ model of the three ask transports (AskHub rendezvous, stream per ask, mbapp fragments with the in-flight table) checked by TLC; TLC-generated scripts with handler gates, Close points and context ends replayed on 13 real stacks plus seeded concurrent workloads; ledger judged by TLC",
                 text="TLC checks OwnAnswer (a successful Ask returns the bytes its own handler invocation produced; the handler saw this request and the asker's address) and FailureIsError (negative handler result, destination closed before the call, response longer than the buffer, context ended => error, by the deadline) on every interleaving of 2 askers x 2 servers with every handler result class, CloseDst and Timeout at every step, reordered and duplicated multi-part mbapp replies and colliding counters. Scripts generated from the same model drive vswarm/memswarm, wlswarm, multiswarm, the five p2pmux framings, quicswarm on memswarm, sshswarm on 127.0.0.1 and mbapp over a harness-owned datagram network (the driver delivers every fragment in the scripted order, sets colliding counters through a verif hook), with unique request and response payloads; seeded concurrent workloads (c askers, servers closing mid-run, expiring contexts) exercise the same stacks free-running. TLC evaluates the ledger: every AskRet(ok, n, digest) must match a handler invocation for the same request id.",
-                note="Bounds: 2 askers x 2 servers x 2-3 asks in the model. An Ask still blocked 1 s after its context ended is re-measured to 3 s, discarded if the harness' heartbeat stalled, and the behaviour is executed a second time before it is believed. Errors without a cause are DRIFT, not violations (C11 does not promise success).",
+                note="Bounds: 2 askers x 2 servers x 2-3 asks in the model. An Ask still blocked 1 s after its context ended is re-measured to 3 s, discarded if the harness' own heartbeat was not scheduled for a third of that, and the behaviour is executed a second time before it is believed (re-observations of a recorded finding excepted). Errors without a cause are DRIFT, not violations (C11 does not promise success).",
                 ref="5 (C11), 3.8, Appendix B"),
 }
 
@@ -60,9 +60,9 @@ TIERS = {
         mustfail=[("bugF02", "Ask_hub_bugF02.cfg"), ("bugF09", "Ask_mbapp_bugF09.cfg"), ("bugF10", "Ask_stream_bugF10.cfg"),
                   ("bugF11", "Ask_stream_bugF11.cfg"), ("bugNeg", "Ask_hub_bugNeg.cfg"), ("weakOT", "Ask_mbapp_weakOT.cfg"),
                   ("weakDst", "Ask_mbapp_weakDst.cfg")],
-        scripted={"vswarm": 400, "wlswarm": 200, "multiswarm": 200, "mux-string": 150, "mux-varint": 150, "mux-u16": 150,
-                  "mux-u32": 150, "mux-u64": 150, "quicswarm": 250, "sshswarm": 250, "mbapp": 1200},
-        conc=dict(reps=2, nodes_a=4, nodes_s=4, askers=16, asks=50), par=12, inhandler=4),
+        scripted={"vswarm": 300, "wlswarm": 150, "multiswarm": 150, "mux-string": 120, "mux-varint": 120, "mux-u16": 120,
+                  "mux-u32": 120, "mux-u64": 120, "quicswarm": 200, "sshswarm": 200, "mbapp": 900},
+        conc=dict(reps=2, nodes_a=4, nodes_s=4, askers=16, asks=40), par=12, inhandler=4),
 }
 
 
@@ -301,11 +301,13 @@ def check(pid, tier, replay=None):
             rb = [json.load(f)["payload"]["behaviour"]]
     stats, violations = run_pipeline(tier, rb)
     mine, seen = [], set()
+    known = {k["key"] for k in core.known_findings() if k.get("property") == pid}
     for (p, key, what, payload) in violations:
         if p != pid or key in seen:
             continue
         seen.add(key)
-        mine.append(core.Violation(pid, key, what, core.write_replay(pid, key, payload)))
+        # re-observations of a recorded finding are reported without a new replay file every run
+        mine.append(core.Violation(pid, key, what, None if key in known else core.write_replay(pid, key, payload)))
     report(pid, tier, stats, mine, t0)
     return core.verdict(pid, mine)
 
@@ -330,6 +332,6 @@ def report(pid, tier, stats, mine, t0):
                         ["unique request and response payloads: crossed or truncated answers are distinguishable by digest",
                          "the handler is honest: it reports failure (n < 0) when its answer does not fit the buffer it was given",
                          "mbapp: the network does not duplicate REQUESTS (two handler invocations could legitimately mix their reply parts); one asker never reuses (counter, originTime, dst)",
-                         "promptness threshold 1 s (healthy: < 1 ms), re-measured to 3 s, harness heartbeat, behaviour executed twice",
+                         "promptness threshold 1 s (healthy: < 1 ms), re-measured to 3 s, harness heartbeat, behaviour executed twice; at most a few such measurements per stack kind and run",
                          "TLC, the Json/IOUtils community modules and the Go toolchain are trusted"],
                         time.time() - t0, len(mine))
